@@ -557,6 +557,9 @@ fn abstract_op(run: &mut Run, label: &str) -> Value {
             "rsync_create_tmp" if parts.len() == 1 => {
                 json!(["tmp", tmp(&parts[0])])
             }
+            "rsync_remove_tmp" if parts.len() == 1 => {
+                json!(["rmtmp", tmp(&parts[0])])
+            }
             "create_file" if parts.len() >= 2 => {
                 json!(["tmpfile", tmp(&parts[0]), parts[1..].to_vec()])
             }
